@@ -437,6 +437,23 @@ pub fn judge_all(ctx: &mut Ctx, focus: &str, cfg: &RunCfg, out: &RunOut) {
             cf.push(Finding { prop: "C03", sig: "a node holds no certificate although the votes delivered to it reach the threshold (lagging node, slots it still retains)".into(), detail: format!("fed finalization of slot {fs}; missing {:?}", missing) });
         }
     }
+    if let Some((from, m)) = out.invalid_certs_sent.first() {
+        // owned by C03 (what a node broadcasts validates everywhere) and by C09 (a certificate only from votes
+        // that carry their signers' real signatures)
+        for prop in ["C03", "C09"] {
+            cf.push(Finding { prop, sig: "a correct node broadcast a certificate that does not pass validation".into(), detail: format!("node {from}: {:?} slot {} ({} such certificates in this execution)", m.kind, m.slot, out.invalid_certs_sent.len()) });
+        }
+    }
+    if cfg.label == "c13-nodes" {
+        // timely, fault-free run with forged copies of genuine shreds in the air: every leader is correct and every
+        // block arrives in time, so no correct node has a reason to skip any slot of the steady phase
+        let last = out.votes_sent.iter().map(|v| v.2.slot).max().unwrap_or(0);
+        let skips: Vec<(usize, u64)> = out.votes_sent.iter().filter(|(_, _, v)| matches!(v.kind, VK::Skip | VK::SkipFallback) && v.slot >= 4 && v.slot + 8 <= last).map(|(_, from, v)| (*from, v.slot)).collect();
+        if let Some((from, slot)) = skips.first() {
+            cf.push(Finding { prop: "C13", sig: "node level: a correct node skipped a slot of a correct, timely leader while forged copies of its shreds were injected".into(), detail: format!("node {from} slot {slot} ({} skip votes in the steady phase)", skips.len()) });
+        }
+        ctx.count_n("c13-nodes:slots-judged", last.saturating_sub(11));
+    }
     if !out.oversize.is_empty() {
         cf.push(Finding { prop: "C19", sig: "a correct node emitted a datagram above 1500 bytes".into(), detail: format!("{:?}", out.oversize.first()) });
     }
@@ -617,6 +634,54 @@ pub fn run_c03_nodes(ctx: &mut Ctx, runs_q: u64, runs_t: u64) {
         cfg.label = "c03-laggard".into();
         let out = rt.block_on(tokio::task::unconstrained(execute(&cfg, &mut rng)));
         judge_all(ctx, "C03", &cfg, &out);
+    }
+}
+
+/// C09 at node level: forged votes that name the receiving node itself as signer (and the other hostile
+/// consensus classes) must leave no trace: in particular no correct node may ever broadcast a certificate that
+/// fails validation (it would contain a signature its signer never made).
+pub fn run_c09_nodes(ctx: &mut Ctx, runs_q: u64, runs_t: u64) {
+    let rt = tokio::runtime::Builder::new_current_thread().enable_all().start_paused(true).build().expect("rt");
+    let mut rng = ctx.rng("c09-nodes");
+    let runs = ctx.iters(runs_q, runs_t);
+    for i in 0..runs {
+        let mut cfg = base_cfg(&mut rng, ctx.quick(), true, true);
+        cfg.chaos = chaos_profiles()[0].clone();
+        cfg.t_stable = Duration::ZERO;
+        cfg.delta = Duration::from_millis(*[10u64, 80].choose(&mut rng).unwrap());
+        cfg.byz_leader = ByzLeader::Silent;
+        cfg.tx_rate = 0;
+        cfg.duration = Duration::from_secs(if ctx.quick() { 12 } else { 18 });
+        // crashed / silent validators make the forged votes matter: the genuine stake alone stays below the thresholds
+        let classes: Vec<&'static str> = if i % 2 == 0 { vec!["consensus:forged-vote-naming-the-receiver"] } else { vec!["consensus:forged-vote-naming-the-receiver", "consensus:signer-out-of-range", "consensus:cert-sub-threshold", "consensus:cert-bad-bitmask"] };
+        cfg.hostile = Some((Duration::from_secs(1), cfg.duration.mul_f64(0.8), classes));
+        cfg.label = "c09-nodes".into();
+        let out = rt.block_on(tokio::task::unconstrained(execute(&cfg, &mut rng)));
+        ctx.count_n("c09-nodes:hostile-messages", out.hostile_sent.values().sum::<u64>());
+        judge_all(ctx, "C09", &cfg, &out);
+    }
+}
+
+/// C13 at node level: forged copies of genuine shreds (altered payload, proof or signature) for slots of
+/// correct leaders must not make a node discredit the leader: in a timely fault-free run nobody skips.
+pub fn run_c13_nodes(ctx: &mut Ctx, runs_q: u64, runs_t: u64) {
+    let rt = tokio::runtime::Builder::new_current_thread().enable_all().start_paused(true).build().expect("rt");
+    let mut rng = ctx.rng("c13-nodes");
+    let runs = ctx.iters(runs_q, runs_t);
+    for _ in 0..runs {
+        let mut cfg = base_cfg(&mut rng, ctx.quick(), false, false);
+        cfg.byz.clear();
+        cfg.crashes.clear();
+        cfg.chaos = chaos_profiles()[0].clone();
+        cfg.t_stable = Duration::ZERO;
+        cfg.delta = Duration::from_millis(*[5u64, 30].choose(&mut rng).unwrap());
+        cfg.tx_rate = 0;
+        cfg.duration = Duration::from_secs(if ctx.quick() { 10 } else { 16 });
+        cfg.hostile = Some((Duration::from_millis(500), cfg.duration, vec!["shred:forged-copy-of-a-genuine-shred"]));
+        cfg.label = "c13-nodes".into();
+        let out = rt.block_on(tokio::task::unconstrained(execute(&cfg, &mut rng)));
+        ctx.count_n("c13-nodes:forged-shreds-injected", out.hostile_sent.values().sum::<u64>());
+        judge_all(ctx, "C13", &cfg, &out);
     }
 }
 
